@@ -262,6 +262,24 @@ def cases(ctx, tier):
     for f in ('mpz_tdiv_q', 'mpz_fdiv_r', 'mpz_cdiv_q', 'mpz_mod'):
         out.append(('%s %s 0 0' % (f, hx(rng.getrandbits(70))), 'div-by-zero'))
     out.append(('mpz_fdiv_q_ui 12345 0 0', 'div-by-zero'))
+    # mpn_dc_div_qr_n called directly against the divide-and-conquer model (C02_dc_div_qr_n): numerators whose top half equals or
+    # exceeds the divisor (qh = 1), divisors just above B^n/2 with all-ones low halves (largest over-estimate of the partial quotient)
+    for n in (list(range(6, 40)) + [49, 50, 51, 99, 100, 101, 150] if quick else list(range(6, 220))):
+        for rep in range(3 if quick else 8):
+            Bn = 1 << (64 * n)
+            k = rng.random()
+            if k < 0.3: d = (Bn >> 1) + rng.getrandbits(64 * (n // 2)) if rng.random() < 0.5 else (Bn >> 1) | ((1 << (64 * (n // 2))) - 1)
+            elif k < 0.5: d = Bn - 1 - rng.getrandbits(rng.choice([1, 64, 64 * (n // 2)]))
+            else: d = nonzero_top(rng, n, rng.choice(['uniform', 'runs', 'ones'])) | (1 << (64 * n - 1))
+            k = rng.random()
+            if k < 0.25: N = d * Bn + rng.getrandbits(64 * n)
+            elif k < 0.4: N = Bn * Bn - 1 - rng.getrandbits(rng.choice([1, 64 * n]))
+            elif k < 0.6:
+                q = rng.choice([Bn - 1, Bn - rng.getrandbits(64) - 1, (1 << (64 * (n // 2))) - 1, rng.getrandbits(64 * n)])
+                N = q * d + rng.choice([0, d - 1, rng.randrange(d)])
+            else: N = limbs_value(rng, 2 * n)
+            N %= Bn * Bn
+            out.append(('mpn_dc_div_qr_n %x %s %s' % (n, hx(N), hx(d)), 'dc_div_qr_n-direct'))
     return out
 
 def big_cases(ctx, tier):
